@@ -84,27 +84,34 @@ class Lin(object):
 class Expander(ast.NodeTransformer):
     """Inline single-assignment locals and expand aliases."""
 
-    def __init__(self, fi, depth=6, keep=()):
+    def __init__(self, fi, depth=6, keep=(), stale_ok=False):
         self.al = aliases_of(fi)
         self.depth = depth
         self.keep = set(keep)
+        # stale_ok: also write out locals that may be read after their expression changed (stale.py) -- for rules that mean "the value at
+        # the binding" and check the order of events themselves
+        self.stale_ok = stale_ok
 
     def visit_Name(self, node):
-        if isinstance(node.ctx, ast.Load) and node.id in self.al.single_assign \
+        sa_ = self.al.single_assign
+        if self.stale_ok and node.id in getattr(self.al, 'stale_single', {}):
+            sa_ = self.al.stale_single
+        if isinstance(node.ctx, ast.Load) and node.id in sa_ \
                 and node.id not in self.keep and self.depth > 0:
-            val = clone(self.al.single_assign[node.id])
+            val = clone(sa_[node.id])
             sub = Expander.__new__(Expander)
             sub.al = self.al
             sub.depth = self.depth - 1
             sub.keep = self.keep | {node.id}
+            sub.stale_ok = self.stale_ok
             return sub.visit(val)
         return node
 
 
-def ctext(expr, fi, keep=()):
+def ctext(expr, fi, keep=(), stale_ok=False):
     """Canonical text of *expr* in function *fi* (aliases and temporaries
     expanded)."""
-    e = Expander(fi, keep=keep).visit(clone(expr))
+    e = Expander(fi, keep=keep, stale_ok=stale_ok).visit(clone(expr))
     return ' '.join(src(e).split())
 
 
@@ -115,9 +122,9 @@ def _tell_to_len(text):
     return text
 
 
-def lin(expr, fi, keep=()):
+def lin(expr, fi, keep=(), stale_ok=False):
     """Linear form of an integer expression, or None."""
-    e = Expander(fi, keep=keep).visit(clone(expr))
+    e = Expander(fi, keep=keep, stale_ok=stale_ok).visit(clone(expr))
     return _lin(e)
 
 
